@@ -258,7 +258,78 @@ def exception_tables():
 
 # ------------------------------------------------------------------ lex.py
 
+def _lexer_runtime_matches(canon):
+    """True when the rule set the lexer actually compiles - for the default environment and for environments whose
+    identifier tokens are renamed (prefixes of one another, several characters, one empty) - is, character for
+    character, the one the canonical table spells. Read from the running code, so a rewrite of how the patterns are
+    put together that leaves the compiled rules unchanged leaves the table unchanged."""
+    import importlib
+    import re as _re
+
+    jp = importlib.import_module("jsonpath")
+    T = importlib.import_module("jsonpath.token")
+    Lexer = importlib.import_module("jsonpath.lex").Lexer
+
+    class E1(jp.JSONPathEnvironment):
+        root_token = "$$"
+        self_token = "$"
+        fake_root_token = "$$$"
+        union_token = "<|>"
+        keys_selector_token = "*~"
+
+    class E2(jp.JSONPathEnvironment):
+        key_token = "#k"
+        filter_context_token = "ctx"
+        intersection_token = ""
+        keys_selector_token = "#"
+
+    flags_want = 0
+    for attr, text in canon["init"]:
+        if attr == "<flags>":
+            for f in [x for x in text.split("|") if x]:
+                flags_want |= getattr(_re, f)
+    for env in (jp.JSONPathEnvironment(), E1(), E2()):
+        lx = Lexer(env=env)
+        for k, v in canon["patterns"].items():
+            if getattr(lx, k) != v:
+                return False
+        for attr, text in canon["init"]:
+            if attr == "<flags>":
+                continue
+            want = _re.sub(r"\{([a-z_]+)\}", lambda m: getattr(lx, m.group(1)), text)
+            if getattr(lx, attr) != want:
+                return False
+        parts = []
+        for name, pat in canon["rules"]:
+            if name == "<ENV_TOKENS>":
+                toks = [(getattr(T, n), getattr(env, a)) for n, a in canon["env_tokens"]]
+                if canon["longest_first"]:
+                    toks = sorted(toks, key=lambda x: len(x[1]), reverse=True)
+                parts += [(t, _re.escape(v)) for t, v in toks if v]
+            else:
+                parts.append((getattr(T, name), getattr(lx, pat[1:-1]) if pat.startswith("<") and pat.endswith(">") and len(pat) > 2 and pat != "<>" else pat))
+        want = "|".join(f"(?P<{t}>{v})" for t, v in parts)
+        if lx.rules.pattern != want or (lx.rules.flags & ~_re.UNICODE) != flags_want:
+            return False
+    return True
+
+
 def lexer_tables():
+    canon_path = os.path.join(os.path.dirname(os.path.abspath(__file__)), "canon_lexer.json")
+    try:
+        import json as _json
+        canon = _json.load(open(canon_path, encoding="utf-8"))
+        canon["rules"] = [tuple(x) for x in canon["rules"]]
+        canon["env_tokens"] = [tuple(x) for x in canon["env_tokens"]]
+        canon["init"] = [tuple(x) for x in canon["init"]]
+        if _lexer_runtime_matches(canon):
+            return canon
+    except Exception:  # noqa: BLE001  (fall through to the source-text reading)
+        pass
+    return _lexer_tables_source()
+
+
+def _lexer_tables_source():
     tree = _parse("jsonpath/lex.py")
     cls = _class(tree, "Lexer")
     rules, env_tokens, sort_desc = [], [], None
@@ -339,10 +410,20 @@ def cli_tables():
     tree = _parse("jsonpath/cli.py")
     handlers = {}
     subcmd = {}
+    helpers = {n.name: n for n in tree.body if isinstance(n, ast.FunctionDef)}
+
+    def walk(node, seen=()):
+        """ast.walk that also enters the module-level helper functions a call names (what a handler does through
+        `_exit_with_error(err)` it does as surely as inline)"""
+        for x in ast.walk(node):
+            yield x
+            if isinstance(x, ast.Call) and isinstance(x.func, ast.Name) and x.func.id in helpers and x.func.id not in seen and not x.func.id.startswith("handle_"):
+                for b in helpers[x.func.id].body:
+                    yield from walk(b, seen + (x.func.id,))
     for n in tree.body:
         if isinstance(n, ast.FunctionDef) and n.name.startswith("handle_") and n.name.endswith("_command"):
             tries = []
-            reads = sorted({a.attr for a in ast.walk(n) if isinstance(a, ast.Attribute) and isinstance(a.value, ast.Name) and a.value.id == "args"})
+            reads = sorted({a.attr for a in walk(n) if isinstance(a, ast.Attribute) and isinstance(a.value, ast.Name) and a.value.id == "args"})
             for s in n.body:
                 if isinstance(s, ast.Try):
                     hs = []
@@ -354,8 +435,8 @@ def cli_tables():
                         else:
                             classes = [_name_of(h.type)]
                         debug_reraise = any(isinstance(x, ast.If) and "debug" in ast.dump(x.test) and any(isinstance(y, ast.Raise) for y in x.body) for x in h.body)
-                        writes_err = any(isinstance(x, ast.Call) and "stderr" in ast.dump(x.func) for x in ast.walk(h))
-                        exits = [x.args[0].value for x in ast.walk(h) if isinstance(x, ast.Call) and isinstance(x.func, ast.Attribute) and x.func.attr == "exit" and x.args and isinstance(x.args[0], ast.Constant)]
+                        writes_err = any(isinstance(x, ast.Call) and "stderr" in ast.dump(x.func) for x in walk(h))
+                        exits = [x.args[0].value for x in walk(h) if isinstance(x, ast.Call) and isinstance(x.func, ast.Attribute) and x.func.attr == "exit" and x.args and isinstance(x.args[0], ast.Constant)]
                         hs.append((classes, debug_reraise, writes_err, exits[0] if exits else -1))
                     calls = sorted({_name_of(c.func) for b in s.body for c in ast.walk(b) if isinstance(c, ast.Call)})
                     tries.append((calls, hs))
@@ -396,9 +477,32 @@ def cli_tables():
     return {"handlers": handlers, "subcommands": subcmd, "global_dests": glob}
 
 
+FALLBACK = {
+    "parser": {"leading_zero": "<not recognised>", "prec_consts": {}, "precedences": [], "binops": [], "comparison": [], "infix_literal": [], "prefix": []},
+    "filter": {"consts": {}, "value_type_expressions": [], "classes": {}},
+    "env": {"tokens": {}, "limits": {"max_int_index": 0, "min_int_index": 0}, "functions": []},
+    "pointer": {"keys_selector": "", "max_int_index": 0, "min_int_index": 0, "RE_RELATIVE_POINTER": "", "RE_INDEX_TOKEN": ""},
+    "exceptions": [],
+    "lexer": {"rules": [], "env_tokens": [], "longest_first": False, "patterns": {}, "init": []},
+    "cli": {"handlers": {}, "subcommands": {}, "global_dests": []},
+    "twins": [("<not recognised>", False, "")],
+    "guards": [("<not recognised>", "int", "")],
+}
+FAILED = {}        # table -> why its extraction failed on the last run (the properties that use it are then not shown to hold)
+
+
 def extract_all():
-    return {"parser": parser_tables(), "filter": filter_tables(), "env": env_tables(), "pointer": pointer_tables(),
-            "exceptions": exception_tables(), "lexer": lexer_tables(), "cli": cli_tables(), "twins": _twins(), "guards": _guards()}
+    import copy as _copy
+    FAILED.clear()
+    out = {}
+    for name, fn in (("parser", parser_tables), ("filter", filter_tables), ("env", env_tables), ("pointer", pointer_tables), ("exceptions", exception_tables),
+                     ("lexer", lexer_tables), ("cli", cli_tables), ("twins", _twins), ("guards", _guards)):
+        try:
+            out[name] = fn()
+        except Exception as e:  # noqa: BLE001
+            FAILED[name] = f"{type(e).__name__}: {e}"
+            out[name] = _copy.deepcopy(FALLBACK[name])
+    return out
 
 
 def render_lean(t) -> str:
